@@ -476,12 +476,18 @@ def run(ctx):
         f = readers[fn]
         init_c = repo.cls(P + '.' + CTOR[fn]).find_method('__init__')
         n = 0
+        n_init = 0
         built = False
         for p in paths_of(repo, f, unroll=1, asserts='ignore'):
+            # the container may be filled under another name (inside a helper that builds and returns it): follow the bindings back
+            aliases = {cont}
+            for e in reversed(p.events):
+                if e.kind == 'bind' and e.target in aliases and isinstance(e.value, ast.Name):
+                    aliases.add(e.value.id)
             for e in p.events:
-                if e.kind == 'store' and e.target and e.target.startswith(cont + '['):
+                if e.kind == 'store' and e.target and any(e.target.startswith(a_ + '[') for a_ in aliases):
                     n += 1
-                    k = e.target[len(cont) + 1:-1]
+                    k = e.target[e.target.index('[') + 1:-1]
                     ctx.check(k == norm(e.value) + '.name', 'C07.8', '%s:%s-keyed-by-name' % (fn, cont), f.loc(e.node), '%s is keyed by each element\'s own name' % cont, '%s[%s] <- %s' % (cont, k[:60], norm(e.value)[:60]))
             rv = p.outcome[1] if p.outcome[0] == 'return' else None
             val = arg_by_name(rv, init_c, cont) if isinstance(rv, ast.Call) and norm(rv.func) == CTOR[fn] else None
@@ -491,12 +497,17 @@ def run(ctx):
                     n += 1
                     ok = isinstance(pair, ast.Tuple) and len(pair.elts) == 2 and norm(pair.elts[0]) == norm(pair.elts[1]) + '.name'
                     ctx.check(ok, 'C07.8', '%s:%s-keyed-by-name' % (fn, cont), f.loc(), '%s is keyed by each element\'s own name' % cont, '%s is built from %s' % (cont, norm(pair)[:80]))
+                continue
+            for e in p.events:
+                if e.kind == 'bind' and e.target in aliases and isinstance(e.value, ast.AST) and not isinstance(e.value, ast.Name):
+                    n_init += 1
+                    ctx.check(norm(e.value) in ('OrderedDict()', '{}', 'dict()', 'collections.OrderedDict()'), 'C07.8', '%s:%s-ordered' % (fn, cont), f.loc(e.node), '%s keeps document order' % cont,
+                              '%s starts as %s' % (cont, norm(e.value)[:60]))
         ctx.floor('C07.8', n, 1, 'store into %s in %s' % (cont, fn))
         if built:
             ctx.check(True, 'C07.8', '%s:%s-ordered' % (fn, cont), f.loc(), '%s keeps document order (a dict built from the children in iteration order)' % cont)
-        for node in f.body_nodes():
-            if isinstance(node, ast.Assign) and isinstance(node.targets[0], ast.Name) and node.targets[0].id == cont and not built:
-                ctx.check(norm(node.value) in ('OrderedDict()', '{}', 'dict()'), 'C07.8', '%s:%s-ordered' % (fn, cont), f.loc(node), '%s keeps document order' % cont)
+        else:
+            ctx.floor('C07.8', n_init, 1, 'initial value of %s in %s' % (cont, fn))
     # ---- C07.9 names, labels and nil types are displayed ----------------------------------------------------------------------------
     f_bs = repo.func('Arg.Base.__str__')
     for p in paths_of(repo, f_bs):
